@@ -83,6 +83,7 @@ func (s *Semaphore) SetMaxCount(n int64) (done chan struct{}) {
 	s.lock.Unlock()
 
 	go func() {
+		verifGate("sem.resize", old, n)
 		if n > old {
 			s.sem.Release(n - old)
 		} else if n < old {
